@@ -636,9 +636,6 @@ impl Subject for S10 {
         }
     }
 
-    fn required_labels(&self) -> Vec<String> {
-        ["Put", "Replace", "Write", "Take", "Delete", "Open", "Commit", "Drop", "Fork", "Switch", "Merge"].iter().map(|s| s.to_string()).collect()
-    }
 }
 
 /// One fixed scenario, reported as a note (the statement does not ask for it):
@@ -674,6 +671,7 @@ pub fn run(cli: &Cli) {
     let s = S10::new(thorough);
     let b = Bounds::new(cli.tier.pick(5, 6), cli).states(cli.tier.pick(400_000, 8_000_000));
     let r = explore(&s, &b);
+    crate::require_labels(&r, &["Put", "Replace", "Write", "Take", "Delete", "Open", "Commit", "Drop", "Fork", "Switch", "Merge"]);
     run.add(r);
     run.note("reads_compared_with_model", json!(READS_COMPARED.load(Ordering::Relaxed)));
     run.note("rejected_merge_atomicity_probe", rejected_merge_probe());
